@@ -113,6 +113,7 @@ type Machine struct {
 	dlogs                []*dlog
 	stdin, stdout        []value
 	stdoutBroken         bool
+	specLog              *[]specStoreRec
 	syncObjs             map[*value]*syncObj
 	stdinChunk           int
 	fixedNow             uint64
